@@ -58,7 +58,8 @@ class SecopClient(frappy.client.SecopClient):
         if readerror:
             msg = ERRORPREFIX + EVENTREPLY, specifier, (readerror.name, str(readerror), {'t': timestamp})
         else:
-            msg = EVENTREPLY, specifier, (value, {'t': timestamp})
+            datatype = self.modules[module]['parameters'][parameter]['datatype']
+            msg = EVENTREPLY, specifier, (datatype.export_value(value), {'t': timestamp})
         self.dispatcher.broadcast_event(msg)
 
     def nodeStateChange(self, online, state):
